@@ -94,26 +94,65 @@ fn buffered_free(cap: usize, k: usize) -> (i64, i64, bool) {
     (ahead as i64, after as i64, exited == 1)
 }
 
-/// child process body: a Pipe whose function panics at item `p`; the consumer drains it
-fn child_panic(w: usize, n: usize, p: usize) -> ! {
-    let pipeline: text_utils::data::Pipeline<usize, usize> = Arc::new(move |x| {
-        if x == p {
-            panic!("boom at {x}");
-        }
-        x
-    });
-    let pipe = (0..n).pipe(pipeline, w as u8);
+/// child process body: a Pipe whose function panics at item `p`; the consumer drains it.
+/// `scenario` 0: a single pipe. 1: "second epoch" — an older pipe is created first and dropped
+/// (partly consumed) while the panicking one is alive, as `TrainLoader::init_iter` does when it
+/// replaces its iterator. 2: "other loader" — an older pipe is drained to its end and dropped
+/// before the younger one reaches the panicking item. 3: a younger pipe is created and dropped
+/// before the older one panics.
+fn child_panic(w: usize, n: usize, p: usize, scenario: usize) -> ! {
+    let mk = |panic_at: Option<usize>| {
+        let pipeline: text_utils::data::Pipeline<usize, usize> = Arc::new(move |x| {
+            if Some(x) == panic_at {
+                panic!("boom at {x}");
+            }
+            x
+        });
+        (0..n).pipe(pipeline, w as u8)
+    };
     let mut c = 0usize;
-    for _ in pipe {
-        c += 1;
+    match scenario {
+        1 => {
+            let mut old = mk(None);
+            let _ = old.next();
+            let young = mk(Some(p));
+            drop(old);
+            for _ in young {
+                c += 1;
+            }
+        }
+        2 => {
+            let old = mk(None);
+            let mut young = mk(Some(p));
+            for _ in old {}
+            for _ in young.by_ref() {
+                c += 1;
+            }
+        }
+        3 => {
+            let old = mk(Some(p));
+            let young = mk(None);
+            drop(young);
+            for _ in old {
+                c += 1;
+            }
+        }
+        _ => {
+            for _ in mk(Some(p)) {
+                c += 1;
+            }
+        }
     }
+    // reached only if nothing panicked (p >= n) or the panic did not end the process:
+    // a silently truncated stream is as bad as a blocked consumer
     std::process::exit(if c == n { 0 } else { 3 });
 }
 
-fn run_child(w: usize, n: usize, p: usize) -> bool {
+/// true iff the child terminated, and not with the "stream silently truncated" status
+fn run_child(w: usize, n: usize, p: usize, scenario: usize) -> bool {
     let exe = std::env::current_exe().unwrap();
     let mut child = match std::process::Command::new(exe)
-        .args(["child-panic", &w.to_string(), &n.to_string(), &p.to_string()])
+        .args(["child-panic", &w.to_string(), &n.to_string(), &p.to_string(), &scenario.to_string()])
         .stdout(std::process::Stdio::null())
         .stderr(std::process::Stdio::null())
         .spawn()
@@ -124,7 +163,7 @@ fn run_child(w: usize, n: usize, p: usize) -> bool {
     let t0 = Instant::now();
     loop {
         match child.try_wait() {
-            Ok(Some(_)) => return true,
+            Ok(Some(st)) => return st.code() != Some(3),
             Ok(None) => {
                 if t0.elapsed() > Duration::from_secs(5) {
                     let _ = child.kill();
@@ -159,9 +198,9 @@ impl Prop for C09 {
             0
         } else if m < 85 {
             1
-        } else if m < 88 {
+        } else if m < 91 {
             2
-        } else if m < 94 {
+        } else if m < 96 {
             3
         } else {
             4
@@ -183,7 +222,8 @@ impl Prop for C09 {
             2 => {
                 let w = rng.range(0, 4);
                 let p = rng.range(0, n.max(1) - 1) as i64;
-                Val::L(vec![Val::I(2), Val::L(xs), Val::u(w), Val::L(vec![]), Val::I(p), Val::I(0)])
+                // the capacity field selects the pipe-lifecycle scenario of the child
+                Val::L(vec![Val::I(2), Val::L(xs), Val::u(w), Val::L(vec![]), Val::I(p), Val::u(rng.below(4))])
             }
             3 => {
                 let w = rng.range(0, 4);
@@ -325,7 +365,8 @@ impl Prop for C09 {
             }
             2 => {
                 let p = dropk?;
-                let t = run_child(w, xs.len(), p);
+                let t = run_child(w, xs.len(), p, cap);
+                tags.push(format!("scenario{cap}"));
                 if w > 0 && p < xs.len() {
                     tags.push("nt".into());
                 }
@@ -351,7 +392,7 @@ fn main() {
     let args: Vec<String> = std::env::args().collect();
     if args.get(1).map(|s| s.as_str()) == Some("child-panic") {
         let g = |i: usize| args.get(i).and_then(|s| s.parse::<usize>().ok()).unwrap_or(0);
-        child_panic(g(2), g(3), g(4));
+        child_panic(g(2), g(3), g(4), g(5));
     }
     main_loop(C09);
 }
